@@ -413,6 +413,13 @@ static const seed_t seeds[] = {
 	"[Number of Noise Frequencies] 3\n[Network Data]\n"
 	"5 1 2\n6 3 4\n[Noise Data]\n1 .5 .3 20 .1\n2 .6 .4 30 .2\n"
 	"3 .7 .5 40 .3\n[End]\n", SF_L2 },
+    /* a keyword given twice (the last one wins) */
+    { "ts-reference-twice", F_TS, "ts",
+	"[Version] 2.0\n# GHz S RI R 50\n[Number of Ports] 2\n"
+	"[Two-Port Data Order] 12_21\n"
+	"[Reference] 50 75\n[Reference] 60 40\n"
+	"[Number of Frequencies] 1\n[Network Data]\n"
+	"1 .1 .2 .3 .4 .5 .6 .7 .8\n[End]\n", 0 },
     { "ts-v1-hybrid", F_TS, "ts",
 	"[Version] 1.0\n# Hz Z RI R 75\n[Number of Ports] 1\n"
 	"[Number of Frequencies] 1\n[Network Data]\n5 1 2\n", 0 },
@@ -580,9 +587,10 @@ static const kw_t *const kw_tables[NFORMATS] = {
 /* number replacements */
 static const char *const num_repl[] = {
     "0", "-1", "1e308", "nan", "1x", "", "9", "65536", "1500",
-    "4294967297", "2147483648", "inf", "1e999", "-0"
+    "4294967297", "2147483648", "inf", "1e999", "-0",
+    "@"			/* a byte no tokenizer takes */
 };
-#define NNUMREPL 14
+#define NNUMREPL 15
 #define NUMREPL_BIG_FIRST 7	/* "65536" .. "2147483648": level 1 only */
 #define NUMREPL_BIG_LAST 10
 
